@@ -14,7 +14,7 @@ def rawBlock (data R : Bytes) : List RawAmmo × Stop :=
     match rawDecodeHeader (c :: d) with
     | none => ([], .err .rawsize)
     | some (n, tag) =>
-      if n < 0 then ([], .err .panic)
+      if n < 0 then ([], .err .negsize)
       else if n = 0 then
         let q := rawPass R
         ({ frame := [], tag := [] } :: q.1, q.2)
